@@ -66,7 +66,7 @@ impl GenOpts {
             completers: false,
             shell_completers: false,
             info: false,
-            types: vec![Ty::Str, Ty::U32, Ty::Os],
+            types: vec![Ty::Str, Ty::U32, Ty::Os, Ty::Path],
             adjacent_args: false,
             catch: false,
             help_texts: true,
@@ -119,7 +119,8 @@ impl GenOpts {
 }
 
 // no h/V (help, version), no Z (reserved as the undeclared short name)
-const SHORTS: &str = "abcdefgijklmnopqrstuvwxyzABCDEFGIJKLMNOPQRSTUWXY";
+// (two digits among them: `-2` is a name like any other once it is declared)
+const SHORTS: &str = "abcdefgijklmnopqrstuvwxyzABCDEFGIJKLMNOPQRSTUWXY27";
 const NONASCII_SHORTS: &[char] = &['é', 'ß', 'я', '日', 'ç'];
 const LONGS: &[&str] = &[
     "alpha", "bravo", "charlie", "delta", "echo", "fox-trot", "golf", "hotel", "india", "juliet",
@@ -662,7 +663,26 @@ impl<'a> Pool<'a> {
                 fields.push(Spec::Item(self.flag_item(Leaf::Switch)));
             }
         }
-        let g = Spec::Adj(fields);
+        // documentation wrappers inside and around the block (`group_help` on a member, on the
+        // whole group, or both)
+        if self.o.decor {
+            for f in fields.iter_mut().skip(1) {
+                if self.rng.chance(1, 6) {
+                    let id = self.id();
+                    let inner = std::mem::replace(f, Spec::Pure(0));
+                    *f = Spec::wrap(W::GroupHelp(format!("group-{}", id)), id, inner);
+                }
+            }
+        }
+        let mut g = Spec::Adj(fields);
+        if self.o.decor && self.rng.chance(1, 5) {
+            let id = self.id();
+            g = if self.rng.chance(2, 3) {
+                Spec::wrap(W::GroupHelp(format!("group-{}", id)), id, g)
+            } else {
+                Spec::wrap(W::WithGroupHelp(format!("wgroup-{}", id)), id, g)
+            };
+        }
         match self.rng.below(4) {
             0 => g,
             1 => Spec::wrap(W::Optional { catch: false }, self.id(), g),
